@@ -38,11 +38,13 @@ AGG_POOL = [
   ('only_method', {'pattern': r'^a\.b', 'aggregationMethod': 'last'}),
   ('nopattern', {'xFilesFactor': '0.3', 'aggregationMethod': 'max'}),
 ]
-NAMES = ['a.b', 'a.x', 'x.b', 'c', 'zzz', 'ab']
+NAMES = ['a.b', 'a.x', 'x.b', 'c', 'zzz', 'ab', 'm;k=v']
 # the pattern is a regular expression searched in the metric name: shapes that a shortcut around the regex engine
 # (literal-prefix tests, joined alternations, anchoring by hand) gets wrong
 PATTERN_POOL = [r'^a\.|^x\.', r'^zz|\.b$', r'^zzz|c', r'^(a|x)\.', r'^ab?$', r'^[ax]\.', r'^a\.b$', r'a|^c', r'(?i)^A\.', r'^(?!a)',
-                r'^a\.*', r'^a.', r'b', r'^$', r'.*', r'^x\.b|^a\.x|^c$']
+                r'^a\.*', r'^a.', r'b', r'^$', r'.*', r'^x\.b|^a\.x|^c$',
+                # series selected by tag: the value starts with ';' or contains blank + ';' / '#' (comment characters of INI dialects)
+                r';k=v(;|$)', r'^ab ;x$|;k=', r'b #x|^c$']
 
 
 def render(sections):
